@@ -33,6 +33,20 @@ func (fs *subFS) Open(name string) (File, error) {
 	return file, stripErrPathPrefix(err, name, subPath)
 }
 
+// Rename implements RenameFS, so that a view can rename within its subtree whenever the underlying FS can.
+func (fs *subFS) Rename(oldname, newname string) error {
+	if !ValidPath(oldname) || !ValidPath(newname) {
+		return &LinkError{Op: "rename", Old: oldname, New: newname, Err: ErrInvalid}
+	}
+	_, oldSubPath := fs.Mount(oldname)
+	_, newSubPath := fs.Mount(newname)
+	err := Rename(fs.rootFS, oldSubPath, newSubPath)
+	if linkErr, ok := err.(*LinkError); ok {
+		return &LinkError{Op: linkErr.Op, Old: oldname, New: newname, Err: linkErr.Err}
+	}
+	return err
+}
+
 func (fs *subFS) Mount(p string) (mount FS, subPath string) {
 	if !ValidPath(p) {
 		return fs.rootFS, p
